@@ -41,7 +41,7 @@ def sim_configs(kind, tier):
     elif kind == "3d":
         if tier == "quick":
             widths = (0, 2)
-            filters = [None, ("multiplicative", 1), ("convolution", 2)]
+            filters = [None, ("multiplicative", 2), ("convolution", 2)]   # order 2 runs the filter loop twice (order 1 is covered at kernel level)
             for forcing, fs in ((False, False), (True, True)):
                 for w in widths:
                     for flt in filters:
